@@ -173,12 +173,17 @@ extern "C" fn on_segv(_sig: libc::c_int, info: *mut libc::siginfo_t, _ctx: *mut 
                 return;
             }
         }
-        // not ours: die the default way
+        // not ours: record which worker crashed, then die the default way
+        crate::contain::record_crash(libc::SIGSEGV);
         libc::signal(libc::SIGSEGV, libc::SIG_DFL);
     }
 }
 
 static HANDLER_INSTALLED: AtomicUsize = AtomicUsize::new(0);
+
+pub fn install_handler_pub() {
+    install_handler()
+}
 
 fn install_handler() {
     if HANDLER_INSTALLED.swap(1, Ordering::SeqCst) == 0 {
